@@ -8,6 +8,7 @@ import (
 type pendingMsg struct {
 	msgChan   chan Message
 	timestamp time.Time
+	waiting   bool // a caller is waiting on msgChan
 }
 
 type pendingItem struct {
@@ -29,15 +30,20 @@ func (p pendingQueue) Swap(i, j int) {
 	p[i], p[j] = p[j], p[i]
 }
 
+// pendingOldest returns the num oldest entries that no caller is waiting on.
 func pendingOldest(pending map[string]pendingMsg, num int) pendingQueue {
-	if num > len(pending) {
-		num = len(pending)
-	}
 	queue := make(pendingQueue, 0, len(pending))
 	for key, p := range pending {
+		if p.waiting {
+			// A live call: its reply must still find it.
+			continue
+		}
 		queue = append(queue, pendingItem{
 			key, p.timestamp,
 		})
+	}
+	if num > len(queue) {
+		num = len(queue)
 	}
 	sort.Sort(queue)
 	return queue[:num]
